@@ -23,8 +23,12 @@ Definition cid := (N * N)%type.
 Definition cid_eqb (a b : cid) : bool := (fst a =? fst b)%N && (snd a =? snd b)%N.
 Definition mem (c : cid) (l : list cid) : bool := existsb (cid_eqb c) l.
 
-(** tracker keys: MapTracker/BloomTracker use [c.Hash()], cid.Set the whole CID *)
+(** tracker keys.  [kcm]: MapTracker/BloomTracker (visited.go trackerKey): codec and
+    multihash - CIDv0 and CIDv1 dag-pb of one block share it, the raw view of the
+    same bytes does not.  [kmh]: the multihash alone, what those trackers used when
+    this check was written (finding C13-1).  [kcid]: cid.Set, the whole CID. *)
 Definition kmh (c : cid) : cid := (0%N, snd c).
+Definition kcm (c : cid) : cid := ((if (fst c =? 0)%N then 1%N else fst c), snd c).
 Definition kcid (c : cid) : cid := c.
 
 Inductive locr := LYes | LNo | LErr.            (* answer of the locality check *)
@@ -174,32 +178,6 @@ Fixpoint dfs (fuel : nat) (g : graph) (o : wopts) (cs : list cid) (V : list cid)
     end
   end.
 
-(** ---------- the behaviour the property demands when one block is linked under
-    two codecs (finding C13-1): traversal is deduplicated by CID, emission by the
-    tracker key.  [VT]: CIDs traversed, [VE]: keys emitted. ---------- *)
-Fixpoint loop2 (fuel : nat) (g : graph) (o : wopts)
-               (st : list cid) (VT VE : list cid) : option (list cid * list cid * list cid) :=
-  match fuel with
-  | O => None
-  | S fuel' =>
-    match st with
-    | [] => Some ([], VT, VE)
-    | c :: st' =>
-      if mem c VT then loop2 fuel' g o st' VT VE else
-      let VT1 := c :: VT in
-      match expand g (o_loc o) (o_entity o) c with
-      | None => loop2 fuel' g o st' VT1 VE
-      | Some ks =>
-          let st1 := ks ++ st' in
-          if n_ident (lookup g c) || mem (o_key o c) VE then loop2 fuel' g o st1 VT1 VE else
-          match loop2 fuel' g o st1 VT1 (o_key o c :: VE) with
-          | None => None
-          | Some (e, VT', VE') => Some (c :: e, VT', VE')
-          end
-      end
-    end
-  end.
-
 (** ---------- reachability, computed (closure by CID) ---------- *)
 Definition is_open (g : graph) (o : wopts) (c : cid) : bool :=
   match expand g (o_loc o) (o_entity o) c with Some _ => true | None => false end.
@@ -219,41 +197,27 @@ Fixpoint closure (fuel : nat) (g : graph) (o : wopts) (todo seen : list cid) : l
 
 (** ---------- several walks sharing a tracker ---------- *)
 Inductive tracker := TNone | TMap | TCidSet | TBloom.
-Definition key_of (tk : tracker) : cid -> cid :=
-  match tk with TCidSet => kcid | _ => kmh end.
+(** [mh_only] = defect switch of finding C13-1: on = keyed by multihash alone *)
+Definition key_of (mh_only : bool) (tk : tracker) : cid -> cid :=
+  match tk with TCidSet => kcid | _ => if mh_only then kmh else kcm end.
 Definition dedups (tk : tracker) : bool := match tk with TNone => false | _ => true end.
 
 Record walk := mkWalk { w_root : cid; w_entity : bool; w_loc : bool; w_stop : stop }.
-Definition opts_of (tk : tracker) (w : walk) : wopts :=
-  mkOpts (dedups tk) (key_of tk) (w_loc w) (w_entity w).
+Definition opts_of (mh_only : bool) (tk : tracker) (w : walk) : wopts :=
+  mkOpts (dedups tk) (key_of mh_only tk) (w_loc w) (w_entity w).
 
-Fixpoint run_walks (g : graph) (tk : tracker) (fuel : nat) (ws : list walk) (V : list cid)
+Fixpoint run_walks (mh_only : bool) (g : graph) (tk : tracker) (fuel : nat) (ws : list walk) (V : list cid)
   : option (list (list cid * res) * list cid) :=
   match ws with
   | [] => Some ([], V)
   | w :: r =>
       let f := if dedups tk then fuel_of g [w_root w] else fuel in
-      match loop f g (opts_of tk w) (w_stop w) 0 [w_root w] V with
+      match loop f g (opts_of mh_only tk w) (w_stop w) 0 [w_root w] V with
       | None => None
       | Some (e, V', rs) =>
-          match run_walks g tk fuel r V' with
+          match run_walks mh_only g tk fuel r V' with
           | None => None
           | Some (out, V'') => Some ((e, rs) :: out, V'')
-          end
-      end
-  end.
-
-Fixpoint run_walks2 (g : graph) (tk : tracker) (ws : list walk) (VT VE : list cid)
-  : option (list cid) :=
-  match ws with
-  | [] => Some []
-  | w :: r =>
-      match loop2 (fuel_of g [w_root w]) g (opts_of tk w) [w_root w] VT VE with
-      | None => None
-      | Some (e, VT', VE') =>
-          match run_walks2 g tk r VT' VE' with
-          | None => None
-          | Some out => Some (e ++ out)
           end
       end
   end.
@@ -313,42 +277,34 @@ Definition spec_walks (g : graph) (tk : tracker) (ws : list walk) (E : list cid)
   match ws with
   | [] => match E with [] => true | _ => false end
   | w :: _ =>
-      let o := opts_of tk w in
+      let o := opts_of false tk w in
       let roots := map w_root ws in
       let R := closure (fuel_of g roots) g o roots [] in
-      (* exactly once, by tracker key *)
+      (* exactly once: no two emissions for one tracker entry (codec + multihash; cid.Set: CID) *)
       nodup_b (map (o_key o) E) &&
       (* never a CID that fails the locality check / cannot be fetched / is an identity CID *)
       forallb (fun c => is_open g o c && negb (n_ident (lookup g c))) E &&
       (* only reachable CIDs *)
       subset_b E R &&
-      (* every reachable, available, non-identity CID (by tracker key) *)
-      forallb (fun c => if is_open g o c && negb (n_ident (lookup g c))
-                        then mem (o_key o c) (map (o_key o) E) else true) R &&
-      (* in depth-first pre-order, children in link order: the recursive reference *)
-      match dfs (fuel_of g roots) g o roots [] with
-      | Some (e, _) => list_eqb cid_eqb e E
-      | None => false
-      end
+      (* every reachable, available, non-identity CID is announced: its multihash
+         (cid.Set: the CID itself) is among the emissions *)
+      (let k := match tk with TCidSet => kcid | _ => kmh end in
+       forallb (fun c => if is_open g o c && negb (n_ident (lookup g c))
+                         then mem (k c) (map k E) else true) R) &&
+      (* in depth-first pre-order, children in link order: a recursive reference
+         traversal (for either notion of "already visited") *)
+      (match dfs (fuel_of g roots) g o roots [] with
+       | Some (e, _) => list_eqb cid_eqb e E
+       | None => false
+       end ||
+       match dfs (fuel_of g roots) g (opts_of true tk w) roots [] with
+       | Some (e, _) => list_eqb cid_eqb e E
+       | None => false
+       end)
   end.
 
-(** same without the order clause: what finding C13-1's repaired walker must meet *)
-Definition spec_walks_sets (g : graph) (tk : tracker) (ws : list walk) (E : list cid) : bool :=
-  match ws with
-  | [] => match E with [] => true | _ => false end
-  | w :: _ =>
-      let o := opts_of tk w in
-      let roots := map w_root ws in
-      let R := closure (fuel_of g roots) g o roots [] in
-      nodup_b (map (o_key o) E) &&
-      forallb (fun c => is_open g o c && negb (n_ident (lookup g c))) E &&
-      subset_b E R &&
-      forallb (fun c => if is_open g o c && negb (n_ident (lookup g c))
-                        then mem (o_key o c) (map (o_key o) E) else true) R
-  end.
-
-Definition has_ok (tk : tracker) (V : list cid) (has : list (cid * bool)) : bool :=
-  forallb (fun p => Bool.eqb (mem (key_of tk (fst p)) V) (snd p)) has.
+Definition has_ok (mh_only : bool) (tk : tracker) (V : list cid) (has : list (cid * bool)) : bool :=
+  forallb (fun p => Bool.eqb (mem (key_of mh_only tk (fst p)) V) (snd p)) has.
 
 (** Bloom ops: replay the counters along the observed answers; the spec clause:
     a key visited before is never answered "new" / "absent" *)
@@ -373,35 +329,33 @@ Definition bc_eqb (a b : bcounters) : bool :=
   let '(n2, c2, i2, t2, d2) := b in
   (n1 =? n2) && (c1 =? c2)%N && (i1 =? i2)%N && (t1 =? t2)%N && (d1 =? d2)%N.
 
+(** does the observation equal the model with the defect switch [mh_only]? *)
+Definition model_matches (mh_only : bool) (g : graph) (tk : tracker) (fuel : nat) (ws : list walk)
+                         (obs : list (list cid * res)) (has : list (cid * bool)) : bool :=
+  match run_walks mh_only g tk fuel ws [] with
+  | None => false
+  | Some (mobs, V) => list_eqb obs_eqb mobs obs && has_ok mh_only tk V has
+  end.
+
 Definition check_case (c : case) : verdict :=
   match c with
   | CWalks g tk fuel ws obs has =>
       let E := concat (map fst obs) in
       let complete := forallb (fun w => stop_is_never (w_stop w)) ws in
       let in_spec := dedups tk && complete && uniform ws in
-      match run_walks g tk fuel ws [] with
-      | None => VModelMismatch
-      | Some (mobs, V) =>
-          let model_ok := list_eqb obs_eqb mobs obs && has_ok tk V has in
-          if in_spec then
-            if spec_walks g tk ws E then
-              (if model_ok then VOk
-               else (* not today's model: accept exactly the repaired walker *)
-                 match run_walks2 g tk ws [] [] with
-                 | Some e2 => if list_eqb cid_eqb e2 E then VOk else VModelMismatch
-                 | None => VModelMismatch
-                 end)
-            else
-              match run_walks2 g tk ws [] [] with
-              | Some e2 =>
-                  if model_ok && spec_walks_sets g tk ws e2 && negb (spec_walks_sets g tk ws E)
-                  then VKnown 1          (* a subtree lost behind a cross-codec alias *)
-                  else if list_eqb cid_eqb e2 E && spec_walks_sets g tk ws E then VOk   (* repaired *)
-                  else VSpecFail
-              | None => VSpecFail
-              end
-          else verdict_of model_ok true
-      end
+      let m_off := model_matches false g tk fuel ws obs has in
+      let m_on := model_matches true g tk fuel ws obs has in
+      if in_spec then
+        if spec_walks g tk ws E then verdict_of (m_off || m_on) true
+        else
+          (* a subtree lost behind a cross-codec alias: the code as found, and the
+             repaired model meets the specification on this case *)
+          match run_walks false g tk fuel ws [] with
+          | Some (mobs, _) =>
+              if m_on && spec_walks g tk ws (concat (map fst mobs)) then VKnown 1 else VSpecFail
+          | None => VSpecFail
+          end
+      else verdict_of (m_off || m_on) true
   | CBloom cap ops final =>
       let '(ok, c') := bloom_run ops [] (O, cap, 0%N, 0%N, 0%N) in
       verdict_of (bc_eqb c' final) ok
